@@ -53,5 +53,11 @@ func (lg *locGen) scheduledRule() map[string]interface{} {
 	if r.Intn(3) == 0 {
 		rule["schedule"] = pick(r, "+1s", "+1h", "!2031-01-02T15:04:05Z").(string) // one-shot schedules
 	}
+	if r.Intn(10) == 0 {
+		// an EMPTY schedule: an ordinary event rule to the rule parser, never indexed by the indexed state
+		// (the member is there), nothing to the cron hook: no job, and the job of a replaced rule goes
+		rule["schedule"] = ""
+		rule["when"] = map[string]interface{}{"pattern": lg.pattern(lg.events[r.Intn(len(lg.events))])}
+	}
 	return rule
 }
